@@ -105,6 +105,45 @@ example : (do
       (readsB rotExample).all (· < 14))) = some true := by
   decide
 
+/-- One certified rewrite step of `accfg-config-overlap`. -/
+inductive StepOK (cfg : Cfg) : Block → Block → Prop where
+  | move (path : List Nat) (flags : List Bool) {b b'} : applyBlockMove path flags b = some b' → wfB b = true → nodupB b = true →
+      StepOK cfg b b'
+  | loop (path : List Nat) (j fresh : Nat) (b2 bg : Block) {b b'} :
+      applyLoopOverlapGen false false path j fresh b = some b' → applyLoopOverlapGen true false path j fresh b = some b2 →
+      applyLoopOverlapGen true true path j fresh b = some bg → noGhostB b2 = true → wfB bg = true →
+      okBb cfg.fields bg noFacts = true → (∀ x ∈ readsB b, x < fresh) → StepOK cfg b b'
+  | loopT (path : List Nat) (j fresh : Nat) (b2 bg : Block) {b b'} :
+      applyLoopOverlapGen false false path j fresh b = some b' → applyLoopOverlapGen true false path j fresh b = some b2 →
+      applyLoopOverlapGen true true path j fresh b = some bg → noGhostB b2 = true →
+      okTB cfg.fields bg [] = true → (∀ x ∈ readsB b, x < fresh) → StepOK cfg b b'
+  | dce (path : List Nat) {b b'} : applyRule .dce path b = some b' → dceSide path b b' = true → StepOK cfg b b'
+
+/-- Any sequence of certified steps, in any order (whatever the greedy driver chooses). -/
+inductive Chain (cfg : Cfg) : Block → Block → Prop where
+  | refl (b) : Chain cfg b b
+  | step {b b' b''} : StepOK cfg b b' → Chain cfg b' b'' → Chain cfg b b''
+
+theorem step_preserves {cfg : Cfg} {b b' : Block} (h : StepOK cfg b b') (st : St) :
+    (execB cfg false b' st).tr = (execB cfg false b st).tr := by
+  cases h with
+  | move path flags h hwf hn => rw [block_move_preserves path flags _ _ h hwf hn]
+  | loop path j fresh b2 bg h' h2 hg hng hwfg hok hr =>
+    exact loop_overlap_preserves cfg path j fresh _ _ b2 bg h' h2 hg hng hwfg hok hr st
+  | loopT path j fresh b2 bg h' h2 hg hng hok hr =>
+    exact loop_overlap_preserves_taint cfg path j fresh _ _ b2 bg h' h2 hg hng hok hr st
+  | dce path h hside => exact (dce_trace cfg path _ _ h hside st).2
+
+/-- **C06 for every run whose steps are all certified**: the output of the pass has the same trace as its input — every launch
+observes the same registers, launches and awaits keep their number and order — from every state, for all bounds, steps, trip
+counts, branch outcomes and clobbering calls. (Runs containing a step outside the side conditions are covered up to that step
+and validated semantically as a whole.) -/
+theorem overlap_preserves {cfg : Cfg} {b b' : Block} (h : Chain cfg b b') (st : St) :
+    (execB cfg false b' st).tr = (execB cfg false b st).tr := by
+  induction h with
+  | refl => rfl
+  | step hs _ ih => rw [ih, step_preserves hs]
+
 /-! ## Known finding D26 (loop-level overlap with several setups in the body)
 
 `d26Before` is the deduplicated program of the committed witness, `d26After` what the real
